@@ -1025,7 +1025,13 @@ fn main() {
             let over = [("alloc-budget", peak, alloc_budget(len)), ("read-budget", rd, read_budget(len)), ("seek-budget", seeks, seek_budget(len))];
             for (cls, val, bud) in over {
                 if val > bud {
-                    let sig = format!("{}|{cls}|{}", sig_prefix(ep, hf, fmt, kind), cause(fmt, kind));
+                    // cause class of an allocation overrun: when ONE request makes up most of the peak, the
+                    // size came from a single declared length in the input — whichever mutator happened to
+                    // write it (a random byte flip in a frame-size field and the length-field mutator are
+                    // the same defect) — so the signature names that, not the mutator
+                    let largest = l["largest"].as_u64().unwrap_or(0);
+                    let c = if cls == "alloc-budget" && kind.split(':').next() != Some("store") && largest > val / 2 { "container-length-field".to_string() } else { cause(fmt, kind) };
+                    let sig = format!("{}|{cls}|{c}", sig_prefix(ep, hf, fmt, kind));
                     let (path, meta) = retain(&sig, idx, k);
                     interesting.push(idx);
                     run.violation(&sig, &format!("{cls}: {val} > {bud} for a {len}-byte input — {ep} under hint {hint:?}, base {} mutator {kind} (largest single request {})", l["base"].as_str().unwrap_or(""), l["largest"].as_u64().unwrap_or(0)), json!({"input": path, "case": meta, "hint": hint, "observed": w}));
